@@ -176,10 +176,12 @@ int ubuf_sound_common_resize(struct ubuf *ubuf, int offset, int new_size)
 
     if (offset < 0)
         offset += common->size;
-    if (unlikely(offset < 0))
+    if (unlikely(offset < 0 || (size_t)offset > common->size))
         return UBASE_ERR_INVALID;
     if (unlikely(new_size == -1))
         new_size = common->size - offset;
+    if (unlikely(new_size < 0))
+        return UBASE_ERR_INVALID;
     if (unlikely(!offset && new_size == common->size))
         return UBASE_ERR_NONE; /* nothing to do */
     if (unlikely(offset + new_size > common->size))
